@@ -202,6 +202,49 @@ for _d in (2, 3, 4):
                 (lambda td: lambda a: R.project(a, td))(_d), resdim=(lambda td: lambda d: td)(_d), group="conversion"))
 
 
+# --- embeddings with keyword-imputed coordinates (values judged here; bit-for-bit pass-through is C04's)
+def _z_from(kind, a, v):
+    a = mpf(a)
+    if kind == "z":
+        return a
+    if kind == "theta":
+        return v.rho / mpmath.tan(a)
+    return v.rho * mpmath.sinh(a)
+
+
+def _t_from(kind, a, x, y, z):
+    a = mpf(a)
+    if kind == "t":
+        return a
+    return mpmath.sqrt((a * a if a >= 0 else -a * a) + x * x + y * y + z * z)
+
+
+_LK = {"z": ("z", "lonz"), "pz": ("z", "lonz"), "theta": ("theta", "lontheta"), "eta": ("eta", "loneta")}
+_TK = {"t": ("t", "tt"), "E": ("t", "tt"), "energy": ("t", "tt"), "tau": ("tau", "ttau"), "mass": ("tau", "ttau"), "M": ("tau", "ttau")}
+for _kw, (_ct, _ak) in _LK.items():
+    for _mn in ("to_Vector3D", "to_3D"):
+        _reg(Op(f"{_mn}({_kw}=)", (2,), (_ak,), "vec", (lambda mn, kw: lambda v, a: getattr(v, mn)(**{kw: a}))(_mn, _kw),
+                (lambda ct: lambda v, a: R.RV(v.x, v.y, _z_from(ct, a, v)))(_ct), resdim=lambda d: 3, group="embedding"))
+for _kw, (_ct, _ak) in _TK.items():
+    for _mn in ("to_Vector4D", "to_4D"):
+        _reg(Op(f"{_mn}({_kw}=)", (3,), (_ak,), "vec", (lambda mn, kw: lambda v, a: getattr(v, mn)(**{kw: a}))(_mn, _kw),
+                (lambda ct: lambda v, a: R.RV(v.x, v.y, v.z, _t_from(ct, a, v.x, v.y, v.z)))(_ct), resdim=lambda d: 4, group="embedding"))
+_reg(Op("to_Vector4D(z=,t=)", (2,), ("lonz", "tt"), "vec", lambda v, a, b: v.to_Vector4D(z=a, t=b),
+        lambda v, a, b: R.RV(v.x, v.y, mpf(a), mpf(b)), resdim=lambda d: 4, group="embedding"))
+_reg(Op("to_Vector4D(eta=,mass=)", (2,), ("loneta", "ttau"), "vec", lambda v, a, b: v.to_Vector4D(eta=a, mass=b),
+        lambda v, a, b: R.RV(v.x, v.y, _z_from("eta", a, v), _t_from("tau", b, v.x, v.y, _z_from("eta", a, v))), resdim=lambda d: 4, group="embedding"))
+_reg(Op("to_xyz(z=)", (2,), ("lonz",), "vec", lambda v, a: v.to_xyz(z=a), lambda v, a: R.RV(v.x, v.y, mpf(a)), resdim=lambda d: 3, group="embedding"))
+_reg(Op("to_rhophieta(eta=)", (2,), ("loneta",), "vec", lambda v, a: v.to_rhophieta(eta=a),
+        lambda v, a: R.RV(v.x, v.y, _z_from("eta", a, v)), resdim=lambda d: 3, group="embedding"))
+_reg(Op("to_xytheta(theta=)", (2,), ("lontheta",), "vec", lambda v, a: v.to_xytheta(theta=a),
+        lambda v, a: R.RV(v.x, v.y, _z_from("theta", a, v)), resdim=lambda d: 3, group="embedding"))
+_reg(Op("to_xyzt(t=)", (3,), ("tt",), "vec", lambda v, a: v.to_xyzt(t=a), lambda v, a: R.RV(v.x, v.y, v.z, mpf(a)), resdim=lambda d: 4, group="embedding"))
+_reg(Op("to_rhophietatau(tau=)", (3,), ("ttau",), "vec", lambda v, a: v.to_rhophietatau(tau=a),
+        lambda v, a: R.RV(v.x, v.y, v.z, _t_from("tau", a, v.x, v.y, v.z)), resdim=lambda d: 4, group="embedding"))
+_reg(Op("to_ptphietamass(eta=,mass=)", (2,), ("loneta", "ttau"), "vec", lambda v, a, b: v.to_ptphietamass(eta=a, mass=b),
+        lambda v, a, b: R.RV(v.x, v.y, _z_from("eta", a, v), _t_from("tau", b, v.x, v.y, _z_from("eta", a, v))), resdim=lambda d: 4, group="embedding"))
+
+
 # names of the public API that the catalogue deliberately does not drive as a generic
 # operation, and which property handles them
 HANDLED_ELSEWHERE = {
